@@ -583,19 +583,21 @@ EPS = float(np.finfo(float).eps)
 #   zero1  v = Re sum r e^.. (correlogram: linear):                   err / v  ~  eps * vmax / |v|
 #   both   v = c |B|^2/|A|^2 (ARMA):                                  sum of pole and zero terms
 # vmin / vmax: smallest / largest finite non-zero |value| over BOTH full grids (scale of the tolerance only).
-# LINE_K: measured on the unchanged tree over 60000 line records (all classes below, noise 1e-5 ... 1e-12 and exactly 0, lines on
-# common bins / on the fine grid only / at DC and Nyquist, multiples and gcd pairs): worst observed |a-b| / (max(|a|,|b|) * eps *
-# cond) = 5.1 (see the per-class table in the final comment of this block); 256 leaves a margin of 50.
+# LINE_K: measured on the unchanged tree over 60000 records of gen_line (all 13 class variants, noise 1e-5 ... 1e-12 and exactly 0,
+# lines on common bins / on the fine grid only / at DC and Nyquist, multiples and gcd pairs, fresh objects and the setter): worst
+# observed |a-b| / (max(|a|,|b|) * eps * cond) per class: Periodogram 4.9, pcorrelogram 2.0, pburg 4.1, pyule 4.4, pcovar 3.9,
+# pmodcovar 4.1, parma 6.7, pma 4.9, pminvar 1.8, pmusic 4.5, pev 5.6, MT-unity 4.7, MT-eigen 4.4; 256 leaves a margin of 38.
 LINE_K = 256.0
 LINE_COND = {"pburg": "pole", "pyule": "pole", "pcovar": "pole", "pmodcovar": "pole", "pmusic": "pole", "pev": "pole",
              "pminvar": "pole1", "Periodogram": "zero", "MT-unity": "zero", "MT-eigen": "zero", "pma": "zero",
              "pcorrelogram": "zero1", "parma": "both"}
 LINE_CLASSES = [c for c in C.CLASSES if c in LINE_COND]      # adaptive multitaper: see PARTIAL
 # a bin whose tolerance reaches LINE_OPEN carries no information (the value is rounding noise: 1/round-off at the line of a
-# noiseless record); there only the order of magnitude is compared (pole classes: both values must be "huge": the smaller one
-# must itself have a tolerance >= LINE_OPEN / LINE_W; measured worst ratio 37, LINE_W = 2000)
+# noiseless record); there only the order of magnitude is compared (pole classes: both values must be beyond resolution: the
+# smaller one must itself have a tolerance >= LINE_OPEN / LINE_W; on the unchanged tree the smaller value was itself beyond
+# LINE_OPEN in every one of the 60000 records, i.e. ratio <= 1.0; LINE_W = 100)
 LINE_OPEN = 0.25
-LINE_W = 2000.0
+LINE_W = 100.0
 
 
 def _line_cond(kind, m, vmin, vmax):
@@ -671,17 +673,18 @@ def line_stats(p):
     f1, f2 = np.asarray(o1.frequencies(), float), np.asarray(o2.frequencies(), float)
     if len(f1) != len(a1) or len(f2) != len(a2) or np.max(np.abs(f1[::s1] - f2[::s2][: len(a)])) > 1e-12 * abs(fs):
         out.append("%s: frequencies() of NFFT=%d and NFFT=%d differ at the common bins" % (tag, n1, n2))
-    nan = np.isnan(a) | np.isnan(b)
-    if np.any(np.isnan(a) != np.isnan(b)):
-        out.append("%s: NaN at a common frequency on one of NFFT=%d / %d only" % (tag, n1, n2))
     allv = np.abs(np.concatenate([a1, a2]))
     allv = allv[np.isfinite(allv) & (allv > 0)]
     if allv.size == 0:
-        # an identically zero estimate (residual variance of a noiseless record rounded to exactly 0; 0/0 = NaN where A(f) = 0 as
-        # well): every value is 0 / NaN / inf on both grids; the NaN pattern at the common bins has been compared above
+        # an identically zero estimate on BOTH grids (covariance methods: the residual variance of an exactly noiseless record
+        # rounds to exactly 0; the value at the line is then 0/0 = NaN or 0/round-off = 0 depending on whether |A(f)|^2 is exactly
+        # 0 on that grid): the unchanged code does not support such a record, there is no value to compare
         if np.any(np.isinf(a) != np.isinf(b)):
             out.append("%s: infinite at a common frequency on one of NFFT=%d / %d only, every other value zero" % (tag, n1, n2))
         return out, 0.0, 0.0
+    nan = np.isnan(a) | np.isnan(b)
+    if np.any(np.isnan(a) != np.isnan(b)):
+        out.append("%s: NaN at a common frequency on one of NFFT=%d / %d only" % (tag, n1, n2))
     vmin, vmax = float(allv.min()), float(allv.max())
     kind = LINE_COND[cls]
     A, B = np.abs(a), np.abs(b)
